@@ -3,8 +3,11 @@ package main
 import (
 	"bytes"
 	"compress/gzip"
+	"context"
 	"fmt"
 	"io"
+	"net/http"
+	"net/http/httptest"
 	"runtime"
 	"strconv"
 	"strings"
@@ -362,6 +365,11 @@ func streamCut(c *Ctx) {
 				cuts := randomCuts(r, k, r.Intn(4))
 				op := recvOpLine(comp, 0, tail, flat[:k], cuts, r.Bool())
 				cutCheck(c, op, sent, append([]int{0}, bounds...))
+				if i%4 == 1 {
+					// the same with a read limit that some of the messages exceed: a body that stops inside
+					// a message that is being skipped is no cleaner than one that stops inside any other
+					cutCheck(c, recvOpLine(comp, 8, tail, flat[:k], cuts, r.Bool()), sent, append([]int{0}, bounds...))
+				}
 			}
 		}
 	}
@@ -401,7 +409,13 @@ func cutCheck(c *Ctx, op string, sent [][]byte, bounds []int) {
 	if cleanEnd && (!atBoundary || a["tail"] != "eof") {
 		c.Fail("cut-clean-end", op, ans, "the stream stopped mid-message or failed, yet the receiver sees a clean end of stream (error wrapping io.EOF)")
 	}
-	if !cleanEnd && atBoundary && a["tail"] == "eof" {
+	undecodable := false
+	for _, p := range sent {
+		if len(p) > 0 && p[0] == 0xEE {
+			undecodable = true // the toy codec rejects these: the stream ends there with invalid_argument
+		}
+	}
+	if !cleanEnd && atBoundary && a["tail"] == "eof" && atoi(a["max"]) == 0 && !undecodable {
 		c.Fail("boundary-not-clean", op, ans, "a stream that ends cleanly at a frame boundary must end with the EOF-wrapping error")
 	}
 	if sent != nil {
@@ -474,6 +488,15 @@ func streamLimit(c *Ctx) {
 			}
 		}
 	}
+	// limits beyond 32 bits: every message that fits in an envelope is within the limit
+	for _, n := range []int{1 << 32, 1<<32 + 5, 1 << 33, 1<<40 + 3} {
+		for _, size := range []int{0, 1, 7, 300} {
+			payload := bytes.Repeat([]byte{0x42}, size)
+			limitCheck(c, recvOpLine(true, n, "eof", append(frame(0, []byte{1}), frame(0, payload)...), nil, false))
+			limitCheck(c, recvOpLine(true, n, "eof", frame(1, rleCompress(payload)), nil, false))
+		}
+	}
+	unaryLengthProbes(c)
 	// random mixes
 	nRand := 400
 	if c.Thorough() {
@@ -510,6 +533,42 @@ func streamLimit(c *Ctx) {
 			c.Count("lying-prefix-alloc")
 			if alloc > uint64(8*n+(1<<20)) {
 				c.Fail("limit-lying-prefix-buffered", fmt.Sprintf("declared=%d present=3 max=%d", declared, n), fmt.Sprintf("allocated %d bytes", alloc), "receiver allocated for the declared length although it exceeds the read limit")
+			}
+		}
+	}
+}
+
+// unaryLengthProbes: the unary Connect handler reads the whole body as one message; a peer that
+// *declares* a huge Content-Length and sends little must not make it reserve that much
+// (oracle only: allocation is not modelled).
+func unaryLengthProbes(c *Ctx) {
+	for _, n := range []int{1024, 65536} {
+		for _, declared := range []int64{64 << 20, 1 << 30} {
+			h := connect.NewUnaryHandler("/s/m", func(ctx context.Context, r *connect.Request[[]byte]) (*connect.Response[[]byte], error) {
+				return connect.NewResponse(&[]byte{1}), nil
+			}, connect.WithCodec(rawCodec{"raw"}), connect.WithReadMaxBytes(n))
+			desc := fmt.Sprintf("unary Connect request, Content-Length %d declared, %d bytes sent, max=%d", declared, 2*n, n)
+			var alloc uint64
+			got := safely(func() string {
+				runtime.GC()
+				var before, after runtime.MemStats
+				runtime.ReadMemStats(&before)
+				req := httptest.NewRequest(http.MethodPost, "/s/m", &scriptReader{chunks: [][]byte{bytes.Repeat([]byte{7}, 2*n)}, tail: io.EOF})
+				req.ProtoMajor, req.ProtoMinor, req.Proto = 2, 0, "HTTP/2.0"
+				req.Header.Set("Content-Type", "application/raw")
+				req.ContentLength = declared
+				rec := httptest.NewRecorder()
+				h.ServeHTTP(rec, req)
+				runtime.ReadMemStats(&after)
+				alloc = after.TotalAlloc - before.TotalAlloc
+				return fmt.Sprintf("status=%d", rec.Code)
+			})
+			c.Count("unary-length-probe")
+			if got != "status=400" {
+				c.Fail("limit-within-rejected", desc, got, "an over-limit unary request must be rejected as invalid_argument (HTTP 400)")
+			}
+			if alloc > uint64(8*n+(2<<20)) {
+				c.Fail("limit-lying-prefix-buffered", desc, fmt.Sprintf("allocated %d bytes", alloc), "receiver allocated for the declared length although it exceeds the read limit")
 			}
 		}
 	}
